@@ -49,6 +49,12 @@ def step (d : DS) (line : String) : DS × String :=
     (match parseBytes data with
      | some data => (d, s!"ok {connStr (handleUni (St.fresh data))}")
      | none => (d, "bad-op"))
+  | ["sreq", data] =>
+    -- the real serverConn.handleRequestStream on a whole request: request construction in server.go
+    -- is not modelled; the modelled outcome is only "no panic"
+    (match parseBytes data with
+     | some _ => (d, "ok")
+     | none => (d, "bad-op"))
   | ["phdr", data] =>
     (match parseBytes data with
      | some data =>
